@@ -38,6 +38,10 @@
     TR <hex>                    readTable into an empty table      → ok <cols> <rest length> | fail
     TS <keyhex> <asc> <cols>    Sort(table, key, asc)               → <cols> | p      (sort.Sort := goSort)
     TA <keyhex> <asc> <key2hex> <asc2> <cols>    SortAnyList                          → <cols> | p
+    H <ops>                     history on ONE StatGeneralPack (lazy table: wire bytes + in-memory edits); ops `;`-separated, fields `/`-separated
+         put/<keyhex>/<t>=<list>   read/<cols>   readself   readzero   get/<keyhex>   getadd/<keyhex>/<v>   getset/<keyhex>/<i>/<v>
+         table   sort/<keyhex>/<asc>   sortany/<keyhex>/<asc>/<key2hex>/<asc2>   write   empty
+         answer: u | p | c<t>=<list> | T<cols> | w<size>:<hex> | b0 | b1
     K <ops>                     history on a LinkedList
          ops: af:<v> al:<v> ad:<v> rf rl rm:<k> pb:<k>:<v> cl t n gf gl
          answer: u | p | v<val> | nil | n<k> | t<list>
@@ -50,6 +54,7 @@ import Golib.Lists.Multi
 import Golib.Lists.Cross
 import Golib.Lists.TableWire
 import Golib.Lists.CrossNum
+import Golib.Lists.PackTable
 import Driver.Common
 
 open Drv Lists
@@ -451,6 +456,72 @@ def runXO (t : String) : List XOp → Multi.MState V → List String → List St
       runXO t ops st (("y" ++ listOf (fun i => showV (canonV t (cell i)) ++ "/" ++ showV (canonV t (ccell i))) perm
         ++ "#" ++ snapshot st) :: acc)
 
+/-! ### pack histories -/
+
+def colOfSpec (s : String) : Option Table.Col :=
+  match s.splitOn "=" with
+  | [t, vs] => match isType t, parseVs t vs with
+    | true, some vs => some { ty := tyOf t, l := listOfVals t vs }
+    | _, _ => none
+  | _ => none
+
+def showCol (c : Table.Col) : String := charOfTy c.ty ++ "=" ++ listOf showV (TL.toArray c.l)
+
+def runH : List String → PackTable.St → Bytes → List String → List String
+  | [], _, _, acc => acc.reverse
+  | o :: os, st, lastW, acc =>
+    let g := Growth.go
+    match o.splitOn "/" with
+    | ["put", k, spec] => match ofHex k, colOfSpec spec with
+      | some k, some c => runH os (PackTable.put st k c) lastW ("u" :: acc)
+      | _, _ => runH os st lastW ("bad-op" :: acc)
+    | ["read", cols] => match parseTable cols with
+      | some t =>
+        let bytes := if t.isEmpty then [] else Table.writeTable t
+        runH os (PackTable.read st bytes) lastW ("u" :: acc)
+      | none => runH os st lastW ("bad-op" :: acc)
+    | ["readself"] => runH os (PackTable.read st lastW) lastW ("u" :: acc)
+    | ["readzero"] => runH os (PackTable.read st [0, 0]) lastW ("u" :: acc)   -- a table of zero columns
+    | ["get", k] => match ofHex k with
+      | some k => match PackTable.get g st k with
+        | some (st', c) => runH os st' lastW (("c" ++ showCol c) :: acc)
+        | none => runH os ((PackTable.unpack g st).getD st) lastW ("p" :: acc)
+      | none => runH os st lastW ("bad-op" :: acc)
+    | ["getadd", k, v] => match ofHex k with
+      | some k =>
+        match PackTable.getEdit g st k (fun c => match parseV (charOfTy c.ty) v with
+            | some x => (TL.add g (Table.zeroOfTy c.ty) x c.l).map (fun l => { c with l := l })
+            | none => none) with
+        | some st' => runH os st' lastW ("u" :: acc)
+        | none => runH os ((PackTable.unpack g st).getD st) lastW ("p" :: acc)
+      | none => runH os st lastW ("bad-op" :: acc)
+    | ["getset", k, i, v] => match ofHex k, parseInt i with
+      | some k, some i =>
+        match PackTable.getEdit g st k (fun c => match parseV (charOfTy c.ty) v with
+            | some x => (TL.set c.l i x).map (fun l => { c with l := l })
+            | none => none) with
+        | some st' => runH os st' lastW ("u" :: acc)
+        | none => runH os ((PackTable.unpack g st).getD st) lastW ("p" :: acc)
+      | _, _ => runH os st lastW ("bad-op" :: acc)
+    | ["table"] => match PackTable.unpack g st with
+      | some st' => runH os st' lastW (("T" ++ showTable st'.table) :: acc)
+      | none => runH os st lastW ("p" :: acc)
+    | ["sort", k, asc] => match ofHex k, parseBool asc with
+      | some k, some asc => match PackTable.sort theSort g st k asc with
+        | some st' => runH os st' lastW ("u" :: acc)
+        | none => runH os st lastW ("p" :: acc)
+      | _, _ => runH os st lastW ("bad-op" :: acc)
+    | ["sortany", k, asc, k2, asc2] => match ofHex k, parseBool asc, ofHex k2, parseBool asc2 with
+      | some k, some asc, some k2, some asc2 => match PackTable.sortAny theSort g st k asc k2 asc2 with
+        | some st' => runH os st' lastW ("u" :: acc)
+        | none => runH os st lastW ("p" :: acc)
+      | _, _, _, _ => runH os st lastW ("bad-op" :: acc)
+    | ["write"] =>
+      let r := PackTable.write st
+      runH os r.1 r.2.2 (("w" ++ toString r.2.1 ++ ":" ++ hexOf r.2.2) :: acc)
+    | ["empty"] => runH os st lastW ((if PackTable.isEmpty st then "b1" else "b0") :: acc)
+    | _ => runH os st lastW ("bad-op" :: acc)
+
 /-! ### sorting -/
 
 def lessOf (pt : String) (asc : Bool) (ct : String) (casc : Bool) (vals cvals : Array V) : Nat → Nat → Bool :=
@@ -561,6 +632,7 @@ def answer (line : String) : String :=
       | some t' => showTable t'
       | none => "p"
     | _, _, _, _, _ => "bad-op"
+  | ["H", ops] => semi (runH (if ops == "-" then [] else ops.splitOn ";") PackTable.empty [] [])
   | ["K", ops] =>
     match (if ops == "-" then some [] else (ops.splitOn ";").mapM parseK) with
     | some ops => semi ((Linked.LL.runTR ops Linked.LL.empty []).1.map showK)
